@@ -172,6 +172,9 @@ type pipeCfg struct {
 	maxBody   int
 	// consumption program in streaming mode: read sizes; nil = read everything
 	consume []int
+	// full: every step of `consume` keeps reading until it has that many bytes or the stream ends
+	// (io.ReadFull style); the handler then reports one "hex<marker>" entry per step, joined by ';'
+	full bool
 }
 
 type pipeObs struct {
@@ -197,7 +200,36 @@ func runPipe(frags [][]byte, cfg pipeCfg) pipeObs {
 	e.Any("/*p", func(c context.Context, ctx *app.RequestContext) {
 		n++
 		var body []byte
-		if cfg.streaming && cfg.consume != nil {
+		if cfg.streaming && cfg.full {
+			st := ctx.RequestBodyStream()
+			var lines []string
+		steps:
+			for _, k := range cfg.consume {
+				buf := make([]byte, k)
+				got, mark := 0, ""
+				for got < k {
+					m, err := st.Read(buf[got:])
+					got += m
+					if err == io.EOF {
+						mark = "<EOF>"
+						break
+					}
+					if err != nil {
+						mark = "<ERR>"
+						break
+					}
+					if m == 0 {
+						mark = "<STUCK>"
+						break
+					}
+				}
+				lines = append(lines, fmt.Sprintf("%x%s", buf[:got], mark))
+				if mark == "<ERR>" || mark == "<STUCK>" {
+					break steps
+				}
+			}
+			body = []byte(strings.Join(lines, ";"))
+		} else if cfg.streaming && cfg.consume != nil {
 			st := ctx.RequestBodyStream()
 			ended, short := false, false
 			for _, k := range cfg.consume {
@@ -256,7 +288,7 @@ func runPipe(frags [][]byte, cfg pipeCfg) pipeObs {
 		var ts []string
 		ctx.Request.Header.Trailer().VisitAll(func(k, v []byte) { ts = append(ts, string(k)+"="+string(v)) })
 		bodyRepr := sha(body)
-		if cfg.consume != nil {
+		if cfg.consume != nil || cfg.full {
 			bodyRepr = string(body)
 		}
 		obs.handled = append(obs.handled, fmt.Sprintf("%s %s [%s] body=%s trailers=[%s]", ctx.Request.Header.Method(), ctx.Request.Header.RequestURI(),
